@@ -15,8 +15,9 @@ MANIFEST = {
     "level_claimed": {
         "category": "model_checking",
         "text": "TLC enumerates every INSERT of 1..2 (quick) / 1..3 (thorough) rows over an alphabet of sharding values (two keys of "
-                "one table, a key of another table, an unplaceable key, the second literal spelling, NULL, signed, arithmetic, "
-                "function call, a short row, a sequence value) for 6 / 12 rule instances, in VALUES and SET form, without a global "
+                "one table, a key of another table, unplaceable keys (below and above everything configured, inside an unconfigured period "
+                "between two configured ones), the second literal spelling, NULL, signed, arithmetic, "
+                "function call, a short row, a sequence value) for 8 / 14 rule instances (incl. calendar layouts with a gap), in VALUES and SET form, without a global "
                 "sequence, with one on a separate column and with one feeding the sharding column; it checks at the design level "
                 "that InsertEffect stores every row once in the table a point query is routed to.  Every case is replayed on the real "
                 "planner: the rewritten INSERT statements of the plan are parsed and their rows compared per physical table with "
@@ -50,7 +51,7 @@ def run(ctx):
         summ = rt.feed(ctx, rt.replay_lines(rec), "C03")
         rt.merge_counts(ctx, summ)
         return
-    rules = "ThoroughRules" if thorough else "QuickRules"
+    rules = "InsThoroughRules" if thorough else "InsQuickRules"
     maxrows = 3 if thorough else 2
     mod = rt.gen_module("Routing_ins", {"MCRules": rules})
     r = ctx.tlc("RoutingRun", "routing_ins.cfg", extra_files={"RoutingRun.tla": mod, "routing_ins.cfg": CFG % maxrows},
